@@ -12,6 +12,12 @@
 
 package interpreter
 
+import (
+	"github.com/ysugimoto/falco/v2/tester/shared"
+)
+
+var _ = shared.NewCounter
+
 //@ ghost field interpreter.Interpreter.g_logRuns int
 
 // Well-formedness of standard-library HTTP messages handed to the interpreter: every request and
@@ -175,3 +181,18 @@ package interpreter
 
 //@ func (*Interpreter).ProcessFunctionSubroutine [C08 C13]
 //@   loop 1 invariant len(i.callStack) == old(len(i.callStack)) + 1
+
+// ---- C10: running VCL can only SET the "a failure was counted" flag of a test counter ----------------
+// (Counter.Fail is the only ghost writer of g_failed and it sets it; reflexive + transitive)
+//@ func (*Interpreter).ProcessTestSubroutine [C10]
+//@   by-induction [C10] the failure flag of every test counter is only ever set while VCL runs
+//@   preserves F:tester.TestCase. E:*tester.TestCase F:tester.Tester.counter
+//@   ensures [failure-flag-monotone C10] forall c *shared.Counter :: old(c.g_failed) ==> c.g_failed
+//@ func (*Interpreter).ProcessBlockStatement [C10]
+//@   by-induction [C10] the failure flag of every test counter is only ever set while VCL runs
+//@   preserves F:tester.TestCase. E:*tester.TestCase F:tester.Tester.counter
+//@   ensures [failure-flag-monotone C10] forall c *shared.Counter :: old(c.g_failed) ==> c.g_failed
+//@ func (*Interpreter).TestProcessInit [C10]
+//@   by-induction [C10] the failure flag of every test counter is only ever set while VCL runs
+//@   preserves F:tester.TestCase. E:*tester.TestCase F:tester.Tester.counter
+//@   ensures [failure-flag-monotone C10] forall c *shared.Counter :: old(c.g_failed) ==> c.g_failed
